@@ -877,7 +877,7 @@ def _write_multi(f: TextIO, to_write: Iterable[Any]) -> None:
 
 def _write_file_heading(f: TextIO, comment: str) -> None:
     f.write('#\\#CIF_1.1\n')
-    _write_comment(f, comment)
+    _write_comment(f, _encode_non_ascii(comment))
 
 
 def _reduced_powder_coord(data) -> tuple[str, sc.Variable]:
